@@ -198,12 +198,15 @@ func (Transport) GetProto() pb.IPProto {
 // provided by the client during registration. This Transport was written after RandomizeDstPort was
 // added, so it should not be usable by clients who don't support destination port randomization.
 func (t Transport) ParseParams(libVersion uint, data *anypb.Any) (any, error) {
-	if data == nil {
-		return nil, nil
-	}
-
+	// The version check comes first: a registration without parameters from a client library that
+	// predates this transport must be refused here too, otherwise a registrar that attaches
+	// parameter overrides accepts a registration that every station then drops.
 	if libVersion < randomizeDstPortMinVersion {
 		return nil, fmt.Errorf("client couldn't support this transport")
+	}
+
+	if data == nil {
+		return nil, nil
 	}
 
 	var m = &pb.PrefixTransportParams{}
